@@ -271,6 +271,7 @@ OracleOK(q) ==
        /\ SeqToSet(A) \subseteq SeqToSet(G)
        /\ (q.h = "cnt>1" => \A i \in 1..Len(G) : (G[i] \in SeqToSet(A)) = (G[i].cnt > 1))
        /\ (q.h = "none" => A = G)
+       /\ \A i \in 1..Len(G) : (G[i] \in SeqToSet(A)) = Having(q.h, q.f, q.x, mem(i))      \* the reference HAVING, stated directly
        \* a deviation that is not applicable changes nothing
        /\ \A d \in DevNames : ~Applicable(q, {d}) => Groups(q, {d}) = A
 =============================================================================
